@@ -148,6 +148,21 @@ theorem sign_then_validate (H : Hmac) (e : AlgEntry) (he : e ∈ algTable) (key 
     have : ¬ absDiff now vnow > rd.fudge := by omega
     simp [this, hm, herr, halg, nameEq_refl, verifyWith]
 
+/- Not proved (tie-only: every generated message is read back through `dns.message.from_wire`, and the model's
+`read` is compared with it on the same octets).  Full statement, reader level:
+
+  theorem read_accepts_signed (H) (e ∈ algTable) (key) (hk : key.algorithm = e.name) (body) (rd) (now vnow rm)
+      (hbody : the skeleton walk of `body` by its own counts ends at `body.length` and meets no record of type TSIG)
+      (hname : WfName key.name ∧ isAbs key.name ∧ WfName key.algorithm ∧ isAbs key.algorithm) (octets, ARCOUNT < 65535,
+       time < 2^48, fudge/original id < 2^16, error = 0, |other| < 2^16, |now − vnow| ≤ fudge) :
+      ∃ wire rd' c', signMessage H algTable body (toWire key.name) key rd now rm none false = .ok (wire, rd', c')
+        ∧ ∃ r, read H algTable strict wire (.key key) vnow rm none false = .ok r
+            ∧ r.tsig = some ⟨key.name, rd', some (_, rd'.mac)⟩
+
+  What is missing: the round trip of `nameAt` over `toWire` for owner and algorithm name, of `rdataParse` over
+  `rdataWire`, and the replay of the body's walk inside the longer message.  `sign_then_validate` above is the same
+  statement one level down (at `dns.tsig.validate` on the rendered octets), which is where the MAC logic lives. -/
+
 /-! ## rejection logic -/
 
 /-- "Validation rejects … a different key name / algorithm, time outside the fudge window, … a TSIG error":
